@@ -69,7 +69,9 @@ per property (multi-step histories, two cooperating edit sites, rarely used para
 nesting orders and re-entrant use, boundary parameter values, unusual value and input types, behaviours the documentation states explicitly that
 had not been attacked yet), round 6 three per property (changes dressed as improvements: performance optimisations - caches, fast paths,
 hoisted or removed re-evaluations; refactorings - merged code paths, shared helpers, loops turned into slices or library calls; modernisation and
-robustness tweaks - type checks, truthiness, exception types, extra validation); from round 2 on the agents were told one-line summaries of the earlier changes so as not to repeat them.  `tools/harvest_seeded.sh` confirmed each one on a scratch
+robustness tweaks - type checks, truthiness, exception types, extra validation), round 7 three per property (triggers that depend on particular data values,
+changes in the shared infrastructure - stream helpers, expression objects, containers, base classes -, less-travelled classes and options; the agents also
+reported where the unmodified library already violates the property); from round 2 on the agents were told one-line summaries of the earlier changes so as not to repeat them.  `tools/harvest_seeded.sh` confirmed each one on a scratch
 worktree (patch applies to the current HEAD, pinned suite summary unchanged, the agent's demonstration passes without and fails with the patch),
 then ran the property's quick check against /repo with the patch applied (`git -C /repo apply`, reverted straight afterwards) and recorded the
 outcome in `/verif/seeded/<ID>/<name>/meta.json` next to `patch.diff` and `demo.py`.  Nothing of this was ever committed to /repo; the
